@@ -162,10 +162,15 @@ def check_dump_history(ctx, pms, fmt, D, case, seed_a, seed_b):
 def check_text_form(ctx, fmt, textout, case):
     if fmt in ("composeinfo", "images", "rpms", "modules", "extra_files"):
         try:
-            canon = json.dumps(json.loads(textout), indent=4, sort_keys=True, separators=(",", ": "))
+            obj = json.loads(textout)
+            # the statement fixes key order and indentation; character escaping (ensure_ascii) and a final newline are free
+            canons = [json.dumps(obj, indent=4, sort_keys=True, separators=(",", ": "), ensure_ascii=ea) for ea in (True, False)]
+            canon = canons[0]
         except Exception as e:
+            canons = []
             canon = "unparsable: %s" % e
-        bad = canon != textout
+        body = textout[:-1] if textout.endswith("\n") else textout
+        bad = body not in canons
         ctx.monitor("json-canonical-form", fired=bad)
         if bad:
             i = 0
